@@ -324,12 +324,28 @@ def check_reporters(case, acc, tmpdir):
     df4 = pd.DataFrame({'Equity': bench}, index=ds)
     periods = [252, 252, 52, 12, 1638][len(xs) % 5]        # the reporters take the annualisation factor as a parameter
     with np.errstate(all='ignore'):
-        ts_stats = TearsheetStatistics(strategy_equity=df1, periods=periods).get_results(df1)
+        ts_obj0 = TearsheetStatistics(strategy_equity=df1, periods=periods)
+        ts_stats = ts_obj0.get_results(df1)
         ts_bench = TearsheetStatistics(strategy_equity=df4, periods=periods).get_results(df4)
         path = os.path.join(tmpdir, 'stats.json')
         js = JSONStatistics(equity_curve=df2, target_allocations=alloc, periods=periods, output_filename=path,
                             benchmark_curve=df3)
     acc.see('C17:periods_used', periods)
+    # the caller goes on using ITS frames (a working frame re-filled for the next scenario) after the reporter was built,
+    # before anything is read from it: the report describes the curves as they were given
+    if len(xs) % 2 == 0:
+        df2['Equity'] = [v * 2.5 + i for i, v in enumerate(xs)]
+        df3['Equity'] = [v * 0.3 + 2 * i for i, v in enumerate(bench)]
+        acc.count('C17:reports_read_after_the_callers_frames_were_refilled')
+    # what get_results handed out is the caller's: rebased / converted in place, then the same question is asked again
+    for k_ in ('cum_returns', 'drawdowns', 'returns'):
+        try:
+            ts_stats[k_] *= 100.0
+        except Exception:
+            pass
+    ts_stats['max_drawdown'] = -1.0
+    with np.errstate(all='ignore'):
+        ts_stats = ts_obj0.get_results(df1)
     st = js.statistics['strategy']
     # every block of the export describes ITS OWN curve
     for block, curve, tsb in (('strategy', xs, ts_stats), ('benchmark', bench, ts_bench)):
